@@ -12,7 +12,7 @@
    defect D5 (IFM y start computed from padding.right).                                                *)
 EXTENDS Integers, Sequences, FiniteSets, TLC
 
-CONSTANTS MaxH, YPad, EmitCases
+CONSTANTS MaxH, YPad, EmitCases, Wide
 MAXBD == 3
 
 VARIABLES p, bd, done
@@ -26,9 +26,15 @@ RoundUp(a, b) == CeilDiv(a, b) * b
 (* parameters: H rows of the shared feature map (producer OFM = consumer IFM), pb producer block height,
    k (dilated) kernel height, s stride, pt/pr pads, cb consumer block height, idb IFM depth slices, uh
    micro-block height *)
-Params == { q \in [H : 1..MaxH, pb : 1..3, k : 1..3, s : 1..2, pt : 0..1, pr : 0..1, cb : 1..3, idb : 1..2, uh : 1..2] :
+NarrowParams == { q \in [H : 1..MaxH, pb : 1..3, k : 1..3, s : 1..2, pt : 0..1, pr : 0..1, cb : 1..3, idb : 1..2, uh : 1..2] :
               /\ q.pt <= q.k - 1
               /\ q.H + q.pt >= q.k }
+(* the deep lattice (Wide = TRUE; design level only, not printed as CASE lines): kernels to 5 rows, stride 3, pads to 2,
+   blocks to 4 rows, 3 depth slices, micro-block heights 1, 2 and 4 *)
+WideParams == { q \in [H : 1..MaxH, pb : 1..4, k : 1..5, s : 1..3, pt : 0..2, pr : 0..2, cb : 1..4, idb : 1..3, uh : {1, 2, 4}] :
+              /\ q.pt <= q.k - 1
+              /\ q.H + q.pt >= q.k }
+Params == IF Wide THEN WideParams ELSE NarrowParams
 OfmH(q) == (q.H + q.pt - q.k) \div q.s + 1          \* VALID at the bottom: no pad_bottom needed
 CurBlocks(q) == CeilDiv(OfmH(q), q.cb)
 PrevBlocks(q) == CeilDiv(q.H, q.pb)
